@@ -87,7 +87,7 @@ WDecls(x) ==
 (* C15's precondition: a transaction with three commodities out of balance, under a payee every file
    uses, with different postings (= a different payee template) in every file *)
 AcctOfFile == <<1, 3, 7, 9>>
-ExtraTx(i) == Tx(D(2024, 12, 30 - i), Text(2),
+ExtraTx(i) == Tx(D(2020, 1, 1), Text(2),          \* the same, earliest, date in every file: "first use" ties across files
                  << Post(AcctOfFile[i], <<Amt(i, 0, 4)>>), Post(AcctOfFile[(i % 4) + 1], <<[Amt(2, 0, 1) EXCEPT !.side = "L", !.sp = FALSE]>>),
                     Post(11, <<Amt(3, 0, 7)>>) >>)
 
